@@ -484,6 +484,7 @@ def loops(ctx, cfg, fs):
     for o in keep: o.rule = 'T.loops'
     ctx.obs = ctx.obs[:before] + keep
     option_loops(ctx, cfg, fs)
+    c06.len_threaded(ctx, cfg, fs, 'T.loops')
 
 def option_loops(ctx, cfg, fs):
     """loops that call parse_option until it stops yielding: every way back to the call must cross a progress witness -
